@@ -152,6 +152,7 @@ def open_options(f, opn):
             opts.setdefault(c[1].rsplit("::", 1)[-1], []).append(argval(c[3], c[2][1]))
             seen.add(c[3])
     roots = {c[3] for c in calls_in(chain) if c[1] == OO + "new"}
+    cond_sets = {}
     if roots:
         for cs in f.calls():
             n = cs.callee or ""
@@ -160,6 +161,26 @@ def open_options(f, opn):
             if any(x[0] == "call" and x[1] == OO + "new" and x[3] in roots for x in walk(cs.arg(0))) and f.dominates(cs.block, opn.block):
                 opts.setdefault(n.rsplit("::", 1)[-1], []).append(argval(cs.block, cs.arg(1)))
                 seen.add(cs.block)
+            elif any(x[0] == "call" and x[1] == OO + "new" and x[3] in roots for x in walk(cs.arg(0))) and f.can_reach(cs.block, opn.block) and not f.in_loop(cs.block):
+                # a setter applied on some paths only (`if append { o.append(true) } else { o.truncate(true) }`): the option is
+                # (condition of that path) AND (the argument); unset elsewhere, which is false for every OpenOptions flag
+                base = _q.path_condition(f, opn.block) or []
+                pc = _q.path_condition(f, cs.block)
+                if pc is None:
+                    raise ShapeUnrecognised("%s: OpenOptions::%s is applied under a condition that is not a conjunction" % (f.path, n.rsplit("::", 1)[-1]))
+                e_ = argval(cs.block, cs.arg(1))
+                for cj in pc:
+                    if cj not in base:
+                        e_ = _q._b_and(cj, e_)
+                cond_sets.setdefault(n.rsplit("::", 1)[-1], []).append(e_)
+                seen.add(cs.block)
+    for k, es in cond_sets.items():
+        if k in opts:
+            raise ShapeUnrecognised("%s: OpenOptions::%s is applied both unconditionally and on a branch" % (f.path, k))
+        acc = es[0]
+        for e_ in es[1:]:
+            acc = _q._b_or(acc, e_)
+        opts[k] = [acc]
     for k, v in opts.items():
         if len(v) > 1:
             raise ShapeUnrecognised("%s: OpenOptions::%s is applied %d times before the open" % (f.path, k, len(v)))
